@@ -11,7 +11,6 @@ import (
 	"go/token"
 	"go/types"
 	"os"
-	"reflect"
 	"strings"
 	"unsafe"
 
@@ -1025,11 +1024,34 @@ func callBuiltin(caller *frame, callpos token.Pos, fn *ssa.Builtin, args []value
 	case "delete": // delete(map[K]value, K)
 		switch m := args[0].(type) {
 		case map[value]value:
-			delete(m, args[1])
+			mapDelete(m, args[1])
 		case *hashmap:
 			m.delete(args[1].(hashable))
 		default:
 			panic(fmt.Sprintf("illegal map type: %T", m))
+		}
+		return nil
+
+	case "clear": // clear(map) / clear(slice)
+		switch m := args[0].(type) {
+		case map[value]value:
+			for _, k := range mapKeys(m) {
+				mapDelete(m, k)
+			}
+		case *hashmap:
+			if m != nil {
+				m.table = map[int]*entry{}
+				m.length = 0
+				m.order = nil
+			}
+		case []value:
+			if st, ok := fn.Type().(*types.Signature).Params().At(0).Type().Underlying().(*types.Slice); ok {
+				for i := range m {
+					m[i] = zero(st.Elem())
+				}
+			}
+		default:
+			panic(fmt.Sprintf("clear: illegal operand: %T", m))
 		}
 		return nil
 
@@ -1147,9 +1169,9 @@ func callBuiltin(caller *frame, callpos token.Pos, fn *ssa.Builtin, args []value
 func rangeIter(x value, t types.Type) iter {
 	switch x := x.(type) {
 	case map[value]value:
-		return &mapIter{iter: reflect.ValueOf(x).MapRange()}
+		return &mapIter{m: x, keys: mapKeys(x)}
 	case *hashmap:
-		return &hashmapIter{iter: reflect.ValueOf(x.entries()).MapRange()}
+		return &hashmapIter{entries: x.orderedEntries()}
 	case string:
 		return &stringIter{Reader: strings.NewReader(x)}
 	}
